@@ -1,11 +1,11 @@
 SPECIFICATION Spec
 CONSTANTS
   Choice = "geometric"
-  StartDays = {11016, 19750, 19783}
+  StartDays = {19750, 19783}
   StartMs = {0, 49031500}
   SpanDays = {1, 2, 3, 5, 7, 10, 14, 20, 30, 31, 45, 60, 90, 120, 180, 270, 365, 366, 500, 730, 1096, 1826, 3652, 7305, 18262, 36524, 73048, 91310}
   SpanMsSet = {1, 2, 5, 7, 8, 9, 10, 15, 30, 50, 100, 250, 500, 1000, 2000, 5000, 10000, 30000, 60000, 90000, 300000, 600000, 900000, 1800000, 3600000, 7200000, 10800000, 21600000, 43200000}
-  Counts = {2, 5, 10, 50}
+  Counts = {2, 10, 50}
   NB = 128
 INVARIANT MethodExists
 INVARIANT TicksOK
